@@ -56,7 +56,11 @@ fn class_of(len: usize, overhead: usize) -> usize {
 }
 
 fn value_of(key: &[u8], len: usize, fill: Fill) -> Vec<u8> {
-	let mut r = Rng::new(dbutil::fnv(key) ^ (len as u64).wrapping_mul(0x9E37) ^ if fill == Fill::Random { 1 } else { 2 });
+	value_of_salted(key, len, fill, 0)
+}
+
+fn value_of_salted(key: &[u8], len: usize, fill: Fill, salt: u64) -> Vec<u8> {
+	let mut r = Rng::new(dbutil::fnv(key) ^ (len as u64).wrapping_mul(0x9E37) ^ if fill == Fill::Random { 1 } else { 2 } ^ salt.wrapping_mul(0xA24BAED4963EE407));
 	gen::make_value(&mut r, len, fill)
 }
 
@@ -93,11 +97,13 @@ pub fn run_sweep(ctx: &Ctx, rep: &mut Report, case_seed: u64, variant: u64) {
 fn random_steps(db: &Db, rng: &mut Rng, max: u64) -> R<()> {
 	let n = rng.below(max + 1);
 	for _ in 0..n {
-		let s = match rng.below(6) {
-			0 | 1 => Step::ProcessCommits,
-			2 => Step::FlushLogs,
-			3 => Step::EnactOne,
-			4 => Step::EnactAll,
+		// clean_logs msyncs every table file; with all 255 size classes populated that is the
+		// dominant cost, so it is drawn rarely here (drain points still clean)
+		let s = match rng.below(24) {
+			0..=9 => Step::ProcessCommits,
+			10..=13 => Step::FlushLogs,
+			14..=18 => Step::EnactOne,
+			19..=22 => Step::EnactAll,
 			_ => Step::CleanLogs,
 		};
 		if let Err(e) = do_step(db, s) {
@@ -188,8 +194,14 @@ fn sweep_case(ctx: &Ctx, rep: &mut Report, rng: &mut Rng, cfg: &DbCfg, slice: us
 		if i % 24 == 23 {
 			trace.push("drain + verify all".into());
 			dbutil::drain(&db).map_err(|e| Fail { sig: "failure=step_error;step=drain".into(), detail: format!("{}", e) })?;
-			for k in &keys {
+			// everything written since the last drain, plus a sample of older values
+			let n = keys.len();
+			for k in keys.iter().skip(n.saturating_sub(48)) {
 				check_key(&db, k, model.get(k), rep, &cfg_key, "read-back after drain")?;
+			}
+			for _ in 0..16 {
+				let k = rng.pick(&keys).clone();
+				check_key(&db, &k, model.get(&k), rep, &cfg_key, "read-back after drain (older value)")?;
 			}
 			if rng.chance(1, 3) {
 				trace.push("restart".into());
@@ -213,8 +225,7 @@ fn sweep_case(ctx: &Ctx, rep: &mut Report, rng: &mut Rng, cfg: &DbCfg, slice: us
 			let new_len = if rng.chance(1, 12) { *rng.pick(&all) } else { *rng.pick(&small) };
 			let new_len = if quick && new_len > 200_000 { new_len % 70_000 } else { new_len };
 			let fill = if rng.chance(1, 2) { Fill::Random } else { Fill::Compressible };
-			let v = value_of(&k, new_len ^ (t as usize) << 24, fill);
-			let v = if v.len() != new_len { value_of(&k, new_len, fill) } else { v };
+			let v = value_of_salted(&k, new_len, fill, t as u64 + 1);
 			trace.push(format!("overwrite {}: {} -> {} bytes ({:?})", short_bytes(&k), old_len, new_len, fill));
 			if let Err(e) = db.commit_changes(vec![(0u8, Operation::Set(k.clone(), v.clone()))]) {
 				return fail("failure=valid_commit_rejected", format!("overwrite rejected: {}", e))
@@ -236,11 +247,15 @@ fn sweep_case(ctx: &Ctx, rep: &mut Report, rng: &mut Rng, cfg: &DbCfg, slice: us
 	for k in &keys {
 		check_key(&db, k, model.get(k), rep, &cfg_key, "final read-back")?;
 	}
+	if !rc {
+		// structural check: exactly one live chain per live value, everything else free
+		crate::fsck_glue::run_simple(&db, &path, cfg, &model, rep)?;
+	}
 	// ---- phase 3: storage release: a steady rewrite loop must not grow the tables
 	{
 		let loop_keys: Vec<Vec<u8>> = (0..48).map(|i| format!("loop{:03}", i).into_bytes()).collect();
 		let lens_cycle: Vec<usize> = vec![10, 700, 40, 5000, 0, 33_000, 90, 12_000, 36_000, 300];
-		let rounds = if quick { 14 } else { 40 };
+		let rounds = if quick { 12 } else { 40 };
 		let mut sizes = vec![];
 		for round in 0..rounds {
 			ctx.progress();
@@ -298,7 +313,8 @@ fn sweep_case(ctx: &Ctx, rep: &mut Report, rng: &mut Rng, cfg: &DbCfg, slice: us
 	for k in all_keys.iter() {
 		check_key(&db, k, None, rep, &cfg_key, "read after removal")?;
 	}
-	crate::fsck_glue::run_simple(&path, cfg, &BTreeMap::new(), rep)?;
+	crate::fsck_glue::run_simple(&db, &path, cfg, &BTreeMap::new(), rep)?;
+	rep.count("storage_release_checks", 1);
 	db.close();
 	let db = open()?;
 	for k in all_keys.iter().step_by(5) {
